@@ -154,6 +154,7 @@ func (idx *IndexWriter) WriteToBoltDatabase(db *bbolt.DB) error {
 			if err := tx.Commit(); err != nil {
 				return fmt.Errorf("failed to commit transaction: %w", err)
 			}
+			verifPoint("writer.commit")
 
 			tx, err = db.Begin(true)
 			if err != nil {
@@ -182,6 +183,7 @@ func (idx *IndexWriter) WriteToBoltDatabase(db *bbolt.DB) error {
 	if err := tx.Commit(); err != nil {
 		return fmt.Errorf("failed to commit transaction: %w", err)
 	}
+	verifPoint("writer.commit")
 
 	return nil
 }
